@@ -1223,14 +1223,14 @@ pub fn replay(v: &Value) -> Option<(String, String)> {
     let profile = r["profile"].as_str().unwrap_or("release").to_string();
     if r["kind"].as_str() == Some("c08_history") {
         let jobs: Vec<Job> = r["jobs"].as_array()?.iter().filter_map(|j| Job::from_json(j).ok()).collect();
-        let rs = run_jobs(&profile, &jobs, Duration::from_secs(900)).ok()?;
+        let rs = run_jobs(&profile, &jobs, Duration::from_secs(300)).ok()?;
         let last = jobs.last()?;
         let res = rs.iter().find(|x| x.id == last.id)?;
         let tail = v["key"].as_str().and_then(|k| k.split_once(":history:")).map(|x| x.1.to_string()).unwrap_or_default();
         return judge(last, res).map(|(k, d)| (format!("{k}:history:{tail}"), format!("[{profile}] {d}")));
     }
     let job = Job::from_json(&r["job"]).ok()?;
-    let rs = run_jobs(&profile, std::slice::from_ref(&job), Duration::from_secs(900)).ok()?;
+    let rs = run_jobs(&profile, std::slice::from_ref(&job), Duration::from_secs(300)).ok()?;
     let res = rs.first()?;
     judge(&job, res).map(|(k, d)| (format!("{k}:{}", job_key(&job)), format!("[{profile}] {d}")))
 }
